@@ -232,9 +232,7 @@ def cooked (m : StrMode) : Nat → List Char → List Char → Option (List Char
   | f + 1, c :: r, acc =>
     if c == '"' then some (acc.reverse, r)
     else if c == '\r' then
-      match r with
-      | '\n' :: r' => cooked m f r' ('\n' :: acc)
-      | _ => none
+      (if r.head? = some '\n' then cooked m f (r.drop 1) ('\n' :: acc) else none)
     else if c == '\\' then
       match escape m f r with
       | some (some ch, r') => cooked m f r' (ch :: acc)
